@@ -31,7 +31,7 @@ from pipefunc._utils import (
     is_running_in_ipynb,
     requires,
 )
-from pipefunc.cache import DiskCache, HybridCache, LRUCache, SimpleCache
+from pipefunc.cache import DiskCache, HybridCache, LRUCache, SimpleCache, to_hashable
 from pipefunc.exceptions import UnusedParametersError
 from pipefunc.lazy import _LazyFunction, task_graph
 from pipefunc.map._mapspec import (
@@ -532,13 +532,15 @@ class Pipeline:
             assert cache is not None
             cache_key = compute_cache_key(
                 func.output_name,
-                self._func_defaults(func) | flat_scope_kwargs | func._bound,
+                self._func_defaults(func) | flat_scope_kwargs,
                 root_args,
             )
             if any(k in self.output_to_func for k in flat_scope_kwargs):
                 # An intermediate result was supplied; the root arguments no longer
                 # determine the result, so neither look it up nor store it.
                 cache_key = None
+            if cache_key is not None and (bound_items := self._bound_cache_key_items(func)):
+                cache_key = (cache_key[0], cache_key[1] + bound_items)
             return_now, result_from_cache = get_result_from_cache(
                 func,
                 cache,
@@ -571,6 +573,15 @@ class Pipeline:
             update_cache(cache, cache_key, r, start_time)
         _update_all_results(func, r, output_name, all_results, self.lazy)
         return all_results[output_name]
+
+    def _bound_cache_key_items(self, func: PipeFunc) -> tuple[tuple[str, Any], ...]:
+        """Bound values of ``func`` and of the functions it depends on also determine its result."""
+        funcs = [func, *(self.output_to_func[n] for n in self.func_dependencies(func))]
+        return tuple(
+            (f"{f.__name__}:{k}", to_hashable(v))
+            for f in funcs
+            for k, v in sorted(f._bound.items())
+        )
 
     def run(
         self,
